@@ -8,9 +8,9 @@ wt=/tmp/confwt_${id}_${x}_$$
 dst=/verif/seeded/${id}_${x}
 git -C /repo worktree add --detach $wt HEAD >/dev/null 2>&1 || exit 3
 cd $wt
-/venv/bin/python $src/${x}_demo.py $wt >/tmp/conf_${id}_${x}.orig.log 2>&1; rc_orig=$?
+PYTHONPATH=$wt /venv/bin/python $src/${x}_demo.py $wt >/tmp/conf_${id}_${x}.orig.log 2>&1; rc_orig=$?
 if ! git apply $src/$x.patch 2>/dev/null; then patch -p1 --fuzz=3 -s < $src/$x.patch || { echo "PATCH-FAILED"; cd /; git -C /repo worktree remove --force $wt; exit 3; }; fi
-/venv/bin/python $src/${x}_demo.py $wt >/tmp/conf_${id}_${x}.mut.log 2>&1; rc_mut=$?
+PYTHONPATH=$wt /venv/bin/python $src/${x}_demo.py $wt >/tmp/conf_${id}_${x}.mut.log 2>&1; rc_mut=$?
 tests=$(/venv/bin/python -m pytest -q -p no:cacheprovider --timeout=900 2>&1 | tail -1)
 git diff > /tmp/conf_${id}_${x}.diff
 cd /
@@ -30,7 +30,7 @@ json.dump({
  'property': id, 'variant': x,
  'needs_to_manifest': open('/tmp/seed_out/%s/%s_notes.txt' % (id, x)).read()[:3000],
  'confirmed': {'demo_exit_on_original': int(ro), 'demo_exit_on_changed': int(rm), 'repo_test_suite_with_change': tests,
-               'how': 'tools/confirm_seed.sh: scratch worktree of /repo HEAD under /tmp, demo.py run before/after git apply, pytest -n 4 full suite'},
+               'how': 'tools/confirm_seed.sh: scratch worktree of /repo HEAD under /tmp, demo.py run before/after git apply, serial pytest full suite'},
  'detected_by': None,
 }, open('/verif/seeded/%s_%s/meta.json' % (id, x), 'w'), indent=1)
 PY
